@@ -293,6 +293,8 @@ def kernel_path(ctx, limit=40, max_len=6000):
         p = l.split(" ")
         if p[0] == "V":
             vt.append("(%s, %s, %s, %s)" % (lit(p[1]), lit(p[2]), lit(p[3]), "true" if p[4] == "1" else "false"))
+        elif p[0] == "H":
+            continue       # the kernel path computes SHA-256 itself (Sha256.v)
         elif p[0] == "P":
             pt.append("(%s, %s)" % (lit(p[1]), lit(p[2])))
         else:
